@@ -127,13 +127,19 @@ def alternative_serialisers(obj, s, clsname, foreign=False):
         if shape != base:
             raise Violation('alternative-serialisation-differs', '%s: %s describes another element than to_string(): %s' % (clsname, name, _first_diff(_listify(base), _listify(shape))),
                             detail={'route': name})
-        # producing text does not change the instance: its ordinary serialisation is what it was before
+        # producing text does not change the instance: its ordinary serialisation still describes the same element (the text may differ in prefix names: the
+        # namespace-pair serialisers register their prefixes with ElementTree process-wide)
         try:
             again = obj.to_string()
         except Exception as e:
             raise Violation('serialiser-changes-instance', '%s: after %s, to_string() raises %r' % (clsname, name, e), detail={'route': name})
-        if again != s:
-            raise Violation('serialiser-changes-instance', '%s: after %s the instance serialises differently: %r vs %r' % (clsname, name, again[:200], s[:200]), detail={'route': name})
+        try:
+            shape2 = norm(_et_shape(ET.fromstring(again)))
+        except ET.ParseError as e:
+            raise Violation('serialiser-changes-instance', '%s: after %s the instance no longer serialises to well-formed text (%s): %r' % (clsname, name, e, again[:300]), detail={'route': name})
+        if shape2 != base:
+            raise Violation('serialiser-changes-instance', '%s: after %s the instance describes another element: %s' % (clsname, name, _first_diff(_listify(base), _listify(shape2))),
+                            detail={'route': name})
 
 
 def _listify(t):
